@@ -7,6 +7,7 @@ import (
 	"net/http/httptest"
 	"net/url"
 	"sort"
+	"strconv"
 	"strings"
 	"unicode"
 	"unicode/utf8"
@@ -185,8 +186,8 @@ type varKind struct {
 }
 
 var varKinds = []varKind{
-	{"%s", []string{"1", "ab", "x.y", "a-b", "é", "12", "A_b", "%20", "a b", "a?b", "?", "what?", "a#b", ".", "..", "...", ".a"}, []string{""}},
-	{"%s:\\d+", []string{"1", "007", "42"}, []string{"", "a", "1a", "-1"}},
+	{"%s", []string{"1", "ab", "x.y", "a-b", "é", "12", "A_b", "%20", "a b", "a?b", "?", "what?", "a#b", ".", "..", "...", ".a", "0.00001"}, []string{""}},
+	{"%s:\\d+", []string{"1", "007", "42", "1000000000000000000000"}, []string{"", "a", "1a", "-1"}},
 	{"%s:[1-9][0-9]*", []string{"1", "10", "999"}, []string{"0", "01", "a"}},
 	{"%s:[a-z-]+", []string{"a", "a-b", "zz"}, []string{"A", "a1", ""}},
 	{"%s:[1-9]{1,2}", []string{"1", "12", "99"}, []string{"0", "123", "a"}},
@@ -201,7 +202,7 @@ var varKinds = []varKind{
 	// trailing `)` are not one pair
 	{"%s:(?:\\d+)-(?:\\d+)", []string{"12-34", "1-2"}, []string{"12", "1-", "a-1", ""}},
 	{"%s:(?:en)|(?:de)", []string{"en", "de"}, []string{"fr", "ende", "e", ""}},
-	{"%s:(?:\\d+)\\.(?:\\d+)", []string{"1.20", "0.1"}, []string{"1", "1x2", "1."}},
+	{"%s:(?:\\d+)\\.(?:\\d+)", []string{"1.20", "0.1", "0.00001"}, []string{"1", "1x2", "1."}},
 	{"%s:(?:x|y)(?:1|2)", []string{"x1", "y2"}, []string{"x", "1x", "xy"}},
 	{"%s:(?:[a-z]+)(?:-\\d+)?", []string{"ab", "ab-12"}, []string{"ab-", "-1", "AB"}},
 	// a custom regex that is a plain word - the same word as the NAME of a global variable: it is a regex (it matches
@@ -995,7 +996,7 @@ func (e routeEngine) Run(ops []string) (ans []string, oracle []string) {
 				case 0: // rux.M
 					m := rux.M{}
 					for i := range ks {
-						m[ks[i]] = vs[i]
+						m[ks[i]] = rbTypedArg(vs[i], i+len(ks))
 					}
 					u = im.r.BuildURL(name, m)
 				case 1: // key/value pairs (needs at least one pair)
@@ -1004,7 +1005,7 @@ func (e routeEngine) Run(ops []string) (ans []string, oracle []string) {
 					} else {
 						var args []interface{}
 						for i := range ks {
-							args = append(args, ks[i], vs[i])
+							args = append(args, ks[i], rbTypedArg(vs[i], i+len(ks)+1))
 						}
 						u = im.r.BuildRequestURL(name, args...)
 					}
@@ -1016,7 +1017,7 @@ func (e routeEngine) Run(ops []string) (ans []string, oracle []string) {
 					qs := url.Values{}
 					for i := range ks {
 						if strings.ContainsAny(ks[i], "{}") {
-							ps[ks[i]] = vs[i]
+							ps[ks[i]] = rbTypedArg(vs[i], i+len(ks)+2)
 						} else {
 							qs.Add(ks[i], vs[i])
 						}
@@ -1250,6 +1251,39 @@ func (e routeEngine) genURL(r *Rand, tier string) Case {
 		ops = append(ops, "getroute "+hx(nm))
 	}
 	return Case{Ops: ops, Tag: urlTag}
+}
+
+// rbTypedArg: URL-building arguments are `any`.  A value whose text is the canonical decimal rendering of a Go number
+// or bool is handed over AS that number (int, int64, uint, float64, bool - which one depends on `salt` only), other
+// values sometimes as []byte: the built URL must carry exactly the text.
+func rbTypedArg(v string, salt int) interface{} {
+	if n, err := strconv.ParseInt(v, 10, 64); err == nil && strconv.FormatInt(n, 10) == v {
+		switch salt % 5 {
+		case 0:
+			return int(n)
+		case 1:
+			return n
+		case 2:
+			if n >= 0 {
+				return uint(n)
+			}
+		case 3:
+			if f := float64(n); strconv.FormatFloat(f, 'f', -1, 64) == v {
+				return f
+			}
+		}
+		return v
+	}
+	if f, err := strconv.ParseFloat(v, 64); err == nil && strconv.FormatFloat(f, 'f', -1, 64) == v && salt%3 != 0 {
+		return f
+	}
+	if (v == "true" || v == "false") && salt%2 == 0 {
+		return v == "true"
+	}
+	if salt%7 == 3 {
+		return []byte(v)
+	}
+	return v
 }
 
 /**************** multi-step configuration (wopt) and the shared URL builder (buildq style 3) ****************/
